@@ -50,6 +50,23 @@ SWALLOW_OK = {
 }
 
 
+def _borrow_r11(chk: Check, proj: Project, w) -> None:
+    from . import C07 as _C07
+
+    chk.borrow("S5", "nothing of a finished or FAILED render stays reachable through the compiled template: Node objects (which live as long as the Template stays in the cache) store nothing on themselves at render time - a Component instance cached on the tag node, with the render's outer Context assigned before the render and cleared after it without a finally, keeps a failed render's Context and everything in it alive (shared with C07-S1-A2)",
+               lambda sub: _C07.s1a_nodes(sub, proj, w, _C07.reach_set(proj, w)), only=lambda o: "no-self-store" in o.construct)
+    chk.rule("S3f", "an error raised by user code that the render calls through a SIGNAL reaches the caller: render-path code dispatches Django signals with send(), never with send_robust() (which catches every receiver's exception and returns it in a list nobody reads) - a receiver of `template_rendered` that raises during a nested component's deferred render would otherwise vanish and the page render 'succeed'")
+    n = 0
+    for m2, q, fn in proj.all_funcs():
+        for c in [x for x in ast.walk(fn) if isinstance(x, ast.Call) and isinstance(x.func, ast.Attribute) and x.func.attr in ("send", "send_robust", "asend", "asend_robust") and any(k.arg == "sender" for k in x.keywords)]:
+            n += 1
+            okc = not c.func.attr.endswith("_robust")
+            chk.ob("S3f", f"{m2.name.replace('django_components.', '')}:{q}:{short(c.func, 40)}:signal-errors-propagate", m2.loc(c), okc,
+                   f"`{short(c.func)}(...)` lets a receiver's exception propagate" if okc else
+                   f"`{short(c.func)}(...)` swallows every receiver's exception: user code (a receiver of the signal) fails during the render and the caller is never told")
+    chk.floor("S3f", n, 1)
+
+
 def run(chk: Check, proj: Project) -> None:
     chk.explanation = (
         "Static pairing analysis of the library's per-render registries and stacks over a statement-level CFG with "
@@ -85,6 +102,7 @@ def run(chk: Check, proj: Project) -> None:
 
     chk.borrow("S4", "a render that fails while the class's files are being loaded leaves the CLASS as if it had never been tried: the 'resolved' flag is stored only after everything that can fail (a later render raises the same error again, and works once the file exists) (shared with C16-S4)",
                lambda sub: C16.s4(sub, proj, proj.mod("component_media")), only=lambda o: "resolved-is-last" in o.construct)
+    _borrow_r11(chk, proj, w)
     chk.call_sites = w.cg.n_calls
 
 
